@@ -149,6 +149,24 @@ Definition alloc_code (o : nopts) (rq : areq) (prev : lobs) (b : lobs) : Z :=
       else 0
     end.
 
+(* clauses on a failed Allocate: it must not fail when the model-independent sufficient
+   conditions of the completeness theorems hold *)
+Definition free_sum (o : nopts) (prev : lobs) (hint : list Z) (sel : res2 -> Z) : Z :=
+  sumZ (map (fun nd => Z.max 0 (sel (lookup_res nd (o_cap o))
+                                 - sel (nth (Z.to_nat nd) (lo_nled prev) (0, 0)))) hint).
+Definition fail_code (o : nopts) (rq : areq) (prev : lobs) : Z :=
+  match r_hint rq with
+  | None =>
+    if negb (r_bindreq rq) then 30
+    else if negb (r_required rq) && (r_n rq <=? lenZ (lo_avail prev)) then 29 else 0
+  | Some hint =>
+    if negb (r_bindreq rq) && negb (r_required rq)
+       && match o_cap o with [] => false | _ => true end
+       && ((r_cpu rq <? 0) || (r_cpu rq <=? free_sum o prev hint fst))
+       && ((r_mem rq <? 0) || (r_mem rq <=? free_sum o prev hint snd))
+    then 28 else 0
+  end.
+
 (* clauses on the dumps after any operation *)
 Definition dump_code (o : nopts) (ps : list palloc) (clean : bool) (b : lobs) : Z :=
   let T := o_topo o in
@@ -181,7 +199,7 @@ Fixpoint hist_code (o : nopts) (ps : list palloc) (clean : bool) (prev : lobs)
       | OAlloc rq =>
         if lo_ok b
         then (alloc_code o rq prev b, pods_put ps (mkP (r_uid rq) (lo_cpus b) (r_excl rq) (lo_numa b)), clean)
-        else (0, ps, clean)
+        else (fail_code o rq prev, ps, clean)
       | ORelease uid => (0, pods_del ps uid, clean)
       | OUpdate p => (0, pods_put ps p, false)
       end in
